@@ -1009,6 +1009,27 @@ theorem T_C10_connector_facing (n1 n2 v : V3) (w : Rat) (h1 : n1 ∈ axisNormals
   · exact h
   · exact absurd (hiff.mp h) hne
 
+/-- the hypothesis `v.x > 0` of `T_C10_connector_facing` holds for **all 36 pairs of sides** of two boxes of the model
+    (`boxPoints`, faces by side name through `FACE_MAP`) as soon as the second box lies beyond the first along x: the centre of
+    every side of box 2 is further along +x than the centre of every side of box 1 -/
+theorem T_C10_boxes_displaced (p q p' q' : V3) (hsep : max p.x q.x < min p'.x q'.x) :
+    ∀ e1 ∈ CBV.Gen.faceMap, ∀ e2 ∈ CBV.Gen.faceMap, ∃ f1 f2,
+      (GOp.mk (boxPoints p q)).getFace e1.1 = some f1 ∧ (GOp.mk (boxPoints p' q')).getFace e2.1 = some f2 ∧
+        0 < (avg f2).x - (avg f1).x := by
+  have m1 : min p.x q.x ≤ max p.x q.x := min_le_max
+  have m2 : min p'.x q'.x ≤ max p'.x q'.x := min_le_max
+  intro e1 he1 e2 he2
+  simp only [CBV.Gen.faceMap, List.mem_cons, List.not_mem_nil, or_false] at he1 he2
+  rcases he1 with rfl | rfl | rfl | rfl | rfl | rfl <;> rcases he2 with rfl | rfl | rfl | rfl | rfl | rfl <;>
+    refine ⟨_, _, rfl, rfl, ?_⟩ <;>
+    simp only [boxPoints, List.map_cons, List.map_nil, List.cons_append, List.nil_append, List.getD_cons_zero, List.getD_cons_succ,
+      avg, vsum, List.foldr_cons, List.foldr_nil, List.length_cons, List.length_nil, V3.zero, V3.add_x, V3.smul_x] <;>
+    norm_num <;>
+    linarith [le_max_left p.x q.x, le_max_right p.x q.x, min_le_left p.x q.x, min_le_right p.x q.x,
+      le_max_left p'.x q'.x, le_max_right p'.x q'.x, min_le_left p'.x q'.x, min_le_right p'.x q'.x]
+
+example : max (⟨0, 0, 0⟩ : V3).x (⟨1, 1, 1⟩ : V3).x < min (⟨4, 0, 0⟩ : V3).x (⟨3, 1, 1⟩ : V3).x := by decide +kernel
+
 /-- non-vacuity: unit boxes three units apart along x — the facing pair has alignment 2, right side against right side 0,
     and the facing normals with the centres offset sideways (v = (3, 4, 0), |v| = 5) only 2·(3/5)³ -/
 example : alignment ⟨3, 0, 0⟩ ⟨1, 0, 0⟩ ⟨-1, 0, 0⟩ 3 = 2 ∧ alignment ⟨3, 0, 0⟩ ⟨1, 0, 0⟩ ⟨1, 0, 0⟩ 3 = 0 ∧
